@@ -1,13 +1,17 @@
 #!/usr/bin/env python3
-"""usage: tools/mark_fixed.py <ID> <commit> <signature-substring> [...]  -- move matching known findings of known_findings.d/<ID>.json to its `fixed` list"""
+"""usage: tools/mark_fixed.py <ID> <commit> <signature-substring> [...]  -- move the matching known findings of property <ID>
+(in known_findings.json, or known_findings.d/<ID>.json if that exists) to the `fixed` list.  Substrings must be specific."""
 import json, sys
 from pathlib import Path
 pid, commit, subs = sys.argv[1], sys.argv[2], sys.argv[3:]
-p = Path(__file__).resolve().parent.parent / 'known_findings.d' / f'{pid}.json'
+V = Path(__file__).resolve().parent.parent
+p = V / 'known_findings.d' / f'{pid}.json'
+if not p.exists():
+    p = V / 'known_findings.json'
 d = json.loads(p.read_text())
 keep = []
 for f in d.get('findings', []):
-    if any(s in f['signature'] for s in subs):
+    if f['property'] == pid and any(s in f['signature'] for s in subs):
         d.setdefault('fixed', []).append(f"fixed: property={f['property']} {commit} {f['what']}")
         print('fixed:', f['signature'])
     else:
